@@ -28,6 +28,13 @@ def gen_arcswap():
         m = re.search(pat, text)
         return m.start() if m else -1
 
+    # the per-thread share: exactly one of the two known forms, else fail closed
+    old_share = pos(r"\*max_pw = \*pw \+ W::from_f64\(\(max_part_weight - \*pw\)\.to_f64\(\)\.unwrap\(\) / thread_count as f64\) \.unwrap\(\);") >= 0
+    new_share = pos(r"\*max_pw = \*pw \+ \(max_part_weight - \*pw\) / W::from_usize\(thread_count\)\.unwrap\(\);") >= 0
+    if old_share == new_share:
+        raise Fail("the per-thread share `*max_pw = *pw + ...` is neither the f64 round trip nor the division in W")
+    share_form = "W" if new_share else "f64"
+
     order = [
         pos(r"locks\[vertex\] \.compare_exchange\(false, true,"),
         pos(r"let _lock_guard = defer\("),
@@ -48,8 +55,7 @@ def gen_arcswap():
         ("target_weight_is_local_plus_vertex", pos(r"let target_part_weight = weight \+ part_weights\[target_part\];") >= 0),
         ("move_updates_local_weights", pos(r"part_weights\[initial_part\] -= weight; part_weights\[target_part\] \+= weight;") >= 0),
         ("gain_is_recorded", pos(r"metadata\.move_count \+= 1; metadata\.edge_cut_gain \+= gain;") >= 0),
-        ("headroom_divided_by_thread_count",
-         pos(r"\*max_pw = \*pw \+ W::from_f64\(\(max_part_weight - \*pw\)\.to_f64\(\)\.unwrap\(\) / thread_count as f64\) \.unwrap\(\);") >= 0),
+        ("headroom_divided_by_thread_count", share_form in ("f64", "W")),
         ("merge_subtracts_tc_minus_1_copies", pos(r"\*pw = pw_sum - W::from_usize\(thread_count - 1\)\.unwrap\(\) \* \*pw;") >= 0),
         ("pass_loop_exits_on_zero_gain", pos(r"if pass_metadata\.edge_cut_gain == 0 \{ break; \}") >= 0),
         ("chunks_from_work_share",
@@ -65,6 +71,10 @@ def gen_arcswap():
     out += "From Coq Require Import List Bool.\nImport ListNotations.\n"
     for name, ok in facts:
         out += "Definition arcswap_%s : bool := %s.\n" % (name, coq_bool(ok))
+    out += ("(* the per-thread share of a headroom: true = divided in the weight type W\n"
+            "   (`(max_part_weight - *pw) / W::from_usize(thread_count).unwrap()`: exact truncating quotient for i64),\n"
+            "   false = through f64 (`W::from_f64((max_part_weight - *pw).to_f64().unwrap() / thread_count as f64).unwrap()`) *)\n")
+    out += "Definition arcswap_share_in_W : bool := %s.\n" % coq_bool(share_form == "W")
     out += "Definition arcswap_source_shape : list bool :=\n  [%s].\n" % ";\n   ".join("arcswap_" + n for n, _ in facts)
     return out
 
@@ -88,13 +98,17 @@ PROP = dict(
          "decides (a vertex has a positive gain into a part q with load[q] <= cap < load[q] + w, while a looser cap -- heaviest "
          "input part, or ideal over the loaded parts only -- would leave every worker headroom for it): `weightless_*` (a part "
          "holds no weight: unused id below the maximum or only zero-weight vertices) and `beyondtol_*` (input already beyond "
-         "the tolerance: heaviest part above (1+x)*ideal, Some(x) incl. Some(0.0)); `budgetsum_*` (one random case in ten): 5/7/8/10/11 vertices on 2..4 workers with a shorter last chunk, one positive-gain "
+         "the tolerance: heaviest part above (1+x)*ideal, Some(x) incl. Some(0.0)); `highdeg_*` (one in a hundred): hubs of degree 30..70, mostly exactly 33 and 65, often built so that the hub's last "
+         "neighbour decides the sign of its gain; `big_i64` (one in 25): i64 totals 2^53..2^62, a heavy vertex next to a light one, "
+         "one worker (a share computed through f64 over-allocates there); `budgetsum_*` (one random case in ten): 5/7/8/10/11 vertices on 2..4 workers with a shorter last chunk, one positive-gain "
          "mover per chunk into the same part, each weighing in (headroom/tc, headroom*ipt/len], cap set by None or Some(x) -- the "
-         "SUM of the per-thread budgets decides; one random case in ten runs with f64 vertex "
+         "SUM of the per-thread budgets decides; one random case in ten (`f64x_*`) runs with f64 weights whose sums are exact (integers x 1, 1/2, 1/4, 1/8) "
+         "and is replayed through the f64 instance of the machine; one random case in ten runs with f64 vertex "
          "weights (fractions of the integer ones): no replay, only the weight-independent clauses are checked on its output; distinct = distinct (graph, weights, "
          "partition, pool, cap, recorded schedule); non-trivial = at least two workers and at least one vertex moved",
     class_names={0: "Ok, no move", 1: "Ok, moved", 2: "panic", 3: "hang", 4: "outside the contract", 5: "error",
-                 6: "f64 weights (outputs only), no move", 7: "f64 weights (outputs only), moved"},
+                 6: "f64 weights (outputs only), no move", 7: "f64 weights (outputs only), moved",
+                 8: "f64 exact-sum weights (replayed), no move", 9: "f64 exact-sum weights (replayed), moved"},
     harness_timeout=2400,
     trusted_base=[
         "axioms: none for the machine theorems (mutex, gain exactness, accounting, caps under hr_ok, no panic, termination, "
@@ -112,7 +126,13 @@ PROP = dict(
         "the hardware memory model (acquire/release lock, relaxed part ids) is not covered",
         "i64 vertex weights >= 0 and i64 edge weights whose sums do not overflow; for |cap| + total vertex weight < 2^53 the f64 share "
         "of the code is PROVED to be the exact quotient and the f64 machine to run exactly like the exact one (C05_f64_share_irrelevant); "
-        "the runs still use headroom_checked as a cross-check; f64 vertex weights are not covered",
+        "with the share divided in W (the form the translator reads from the repaired source) the strict caps hold for all integer weights "
+        "(C05_arcswap_caps_i64_all); for the old f64 round trip the strict clause is REFUTED above 2^53 (model witness + the implementation) "
+        "and holds up to cap + |cap|/2^51 (proved)",
+        "f64 vertex weights: mutual exclusion, accounting, ids, move_count, no panic, termination are proved for every f64 weight "
+        "vector (instance wops_f64); the strict caps clause is REFUTED at magnitude 2^52 (model witness + the implementation; open known "
+        "finding arcswap-f64-budget-rounding: f64 weights with 4*tc*max(|cap|,total)+tc >= 2^53) and has "
+        "no theorem; model = code for f64 weights is replay on exact-sum weights (integers x 2^-k) only",
         "symmetric adjacency (as sets of neighbours and as summed weights), neighbour ids < n",
         "the cap is trunc(ideal + max_imbalance * ideal) as computed in f64 by the code (cap_of); its relation to the real number is not proved",
     ],
@@ -130,10 +150,14 @@ MANIFEST = dict(
          "exact quotient below 2^53, so the caps theorem needs no premise on the share), C05_arcswap_safe / C05_replayed_run_safe (arc_swap's own "
          "configuration; an accepted trace is a schedule). The Rust code is tied to the machine by a translator (statement order and "
          "literals of make_move re-read on every run) and by replaying, event by event, the traces of 1.5k/10k runs under a "
-         "controlled scheduler (systematic preemption sweeps + random/adversarial policies); a certified checker judges each output.",
+         "controlled scheduler (systematic preemption sweeps + random/adversarial policies); a certified checker judges each output. "
+         "The machine is generic in the weight arithmetic: the same theorems except the caps hold for f64 vertex weights "
+         "(C05_arcswap_f64w_safe / _runs, replay of exact-sum f64 runs through the f64 instance); for all i64 values the caps hold up "
+         "to the f64 rounding slack (C05_arcswap_caps_f64_i64) and the strict clause is refuted above 2^53 (i64) and at 2^52 (f64 weights), "
+         "both confirmed on the implementation.",
     design_ref="DESIGN.md §7 C05; docs/C05.md",
     note="Proof level holds for the model under sequentially consistent interleavings; model<->code is correspondence on explored "
-         "schedules + translator. Not covered: hardware memory model, f64 weights, weights above 2^53. Known finding "
+         "schedules + translator. Not covered: hardware memory model. Refuted and reported: strict caps above 2^53 (i64) and at 2^52 (f64 weights). Known finding "
          "(reported): unsigned weight types underflow `max_part_weight - pw` (debug panic / release: cap not enforced), stream "
          "gated on known_findings.json class arcswap-unsigned-weights.",
     technique="Coq proof (inductive invariants over schedules) + translator + controlled-scheduler trace replay + certified checker",
